@@ -42,9 +42,26 @@ class StrategyFamily(common.Family):
     if strat in ('chain', 'chain_threads', 'interleaved'):
       ncut = rng.choice([1, 1, 2])
       cuts = sorted({rng.randrange(0, nops + 1) for _ in range(ncut)})
+    stage_threads = None
+    if strat in ('threads', 'chain', 'chain_threads', 'shards') and \
+        rng.random() < 0.3:
+      # aggregates on an earlier named stage too (the reference is then the
+      # same two-stage chain run sequentially)
+      pipes.gen_early(rng, spec)
+      e = spec['early']['cut']
+      if cuts:
+        cuts = sorted({e} | {c for c in cuts if c > e})
+    if strat == 'chain_threads' and rng.random() < 0.6:
+      # stages with different thread counts: a threaded stage pulls from a
+      # sequential one and the other way round
+      nst = (len(cuts) or 1) + 1
+      stage_threads = [rng.choice([0, 0, 1, 2, 3]) for _ in range(nst)]
+      if not any(stage_threads):
+        stage_threads[-1] = 2
     return {
         'spec': spec,
         'strategy': strat,
+        'stage_threads': stage_threads,
         'num_threads': rng.choice([1, 2, 2, 3, 4]),
         'shardable': rng.random() < 0.6,
         # source kind: SequenceDataSource / ShardedIterable / plain iterable,
@@ -97,7 +114,8 @@ class StrategyFamily(common.Family):
            'n_results': None}
 
     if strat in ('threads', 'chain', 'chain_threads'):
-      n = 0 if strat == 'chain' else cfg['num_threads']
+      n = 0 if strat == 'chain' else (
+          cfg.get('stage_threads') or cfg['num_threads'])
       p = pipes.build(spec, num_threads=n, data_source=source(),
                       stages=cfg['cuts'] or None)
       it = p.make().iterate()
@@ -225,8 +243,17 @@ class StrategyFamily(common.Family):
     for i in range(len(spec['ops'])):
       c = copy.deepcopy(cfg)
       del c['spec']['ops'][i]
-      c['cuts'] = sorted({min(x, len(c['spec']['ops'])) for x in c['cuts']})
+      nops = len(c['spec']['ops'])
+      c['cuts'] = sorted({min(x, nops) for x in c['cuts']})
+      if c['spec'].get('early'):
+        e = c['spec']['early']['cut'] = min(c['spec']['early']['cut'], nops)
+        if c['cuts']:
+          c['cuts'] = sorted({e} | {x for x in c['cuts'] if x > e})
       yield c
+    if spec.get('early'):
+      c = copy.deepcopy(cfg); del c['spec']['early']; yield c
+    if cfg.get('stage_threads'):
+      c = copy.deepcopy(cfg); c['stage_threads'] = None; yield c
     if len(spec['aggs']) > 1:
       c = copy.deepcopy(cfg); c['spec']['aggs'] = spec['aggs'][:1]; yield c
     if spec['slice']:
@@ -239,6 +266,9 @@ class StrategyFamily(common.Family):
       c = copy.deepcopy(cfg); c['pre_shard'] = None; yield c
     if len(cfg['cuts']) > 1:
       c = copy.deepcopy(cfg); c['cuts'] = cfg['cuts'][:1]; yield c
+    for i, x in enumerate(cfg.get('stage_threads') or ()):
+      if x > 0 and sum(1 for y in cfg['stage_threads'] if y) > 1:
+        c = copy.deepcopy(cfg); c['stage_threads'][i] = 0; yield c
 
   def nontrivial(self, cfg, out):
     return out['switches'] > 2 or cfg['strategy'] in ('chain',)
